@@ -1992,6 +1992,7 @@ def f_filterTxForImporting : Stmt :=
   -- NewTxRecordFromMsgTx always returns a record and no error
   .call "txmgr.NewTxRecordFromMsgTx" ["rec", "err"] (always [.nz "rec", .z "err"]) ;;
   ifR (nz "err") (.set "rec" (.k 0)) ;;
+  .set "fi.out" (.k 0) ;;        -- driver aid: 0 = in the TxIn loop, 1 = in the TxOut loop
   .set "cache" (.k 1) ;;
   flag "blockchain.IsCoinBaseTx(tx)" "fi.cb" ;;
   .call "len(tx.TxIn)" ["tx.TxIn"] [] ;;
@@ -2019,6 +2020,7 @@ def f_filterTxForImporting : Stmt :=
         .ite (nz "ma") (
           D "rec" "HasBindingIn" ;;
           D "ma" "Account") .skip))) ;;
+  .set "fi.out" (.k 1) ;;
   .call "len(tx.TxOut)" ["tx.TxOut"] [] ;;
   .loop "fi.o" "tx.TxOut" [.nz "rec"] (
     .call "utils.ParsePkScript" ["ps", "pserr", "pserr.unsupported"] (onOk "pserr" [.nz "ps"]) ;;
@@ -2058,6 +2060,7 @@ def f_filterTx : Stmt :=
   D "rec" "Hash" ;;
   flag "h.mempool[rec.Hash]" "ft.known" ;;
   ifR (.and (nz "ft.known") (isz "blockMeta")) (.set "err" (.k 0) ;; .set "isRelevant" (.k 0)) ;;
+  .set "ft.out" (.k 0) ;;        -- driver aid (as `cur.in`): 0 = in the TxIn loop, 1 = in the TxOut loop
   .set "cache" (.k 1) ;;
   flag "blockchain.IsCoinBaseTx(tx)" "ft.cb" ;;
   .call "len(tx.TxIn)" ["tx.TxIn"] [] ;;
@@ -2103,6 +2106,7 @@ def f_filterTx : Stmt :=
         .ite (nz "ma") (D "ma" "Account") .skip) ;;
       -- a `return` inside the iteration leaves filterTx
       ifR (nz "ft.abort") .skip)) ;;
+  .set "ft.out" (.k 1) ;;
   .call "len(tx.TxOut)" ["tx.TxOut"] [] ;;
   .loop "ft.o" "tx.TxOut" [.nz "rec"] filterTxOutStep ;;
   flag "no relevant input or output" "ft.none" ;;
@@ -2393,6 +2397,15 @@ def f_processConnectedBlock : Stmt :=
     .call "len(addedExpireMempool)" ["pcb.a"] [] ;;
     .loop "pcb.k" "pcb.a" [.nz "h.mempool", .nz "h.expiredMempool"] (MA "h.expiredMempool[height]" "h.expiredMempool")) .skip
 
+/-- proccessReceivedTx below its sync-height gate (the gate needs a live netsync.SyncManager): what the hook
+    VerifProcessTx runs and what the differential driver executes for `recvtx` -/
+def recvTxTail : Stmt :=
+  .scope (.invoke Fn.getReadyWallets) ;;
+  ifR (nz "err") .skip ;;
+  .set "blockMeta" (.k 0) ;;
+  .set "recInCurBlk" (.k 0) ;;
+  .invoke Fn.filterTx
+
 def f_proccessReceivedTx : Stmt :=
   .invoke Fn.ChainIndexerSyncedHeight ;;
   -- a live node provides its SyncManager
@@ -2406,11 +2419,7 @@ def f_proccessReceivedTx : Stmt :=
   .invoke Fn.SyncedTo ;;
   flag "syncHeight < knownBestHeight-1" "prt.behind" ;;
   ifR (nz "prt.behind") (.set "err" (.k 0)) ;;
-  .scope (.invoke Fn.getReadyWallets) ;;
-  ifR (nz "err") .skip ;;
-  .set "blockMeta" (.k 0) ;;
-  .set "recInCurBlk" (.k 0) ;;
-  .invoke Fn.filterTx
+  recvTxTail
 
 def f_getBlock : Stmt := .call "w.chainFetcher.FetchBlockBySha" ["blk", "err"] []
 def f_OnBlockConnected : Stmt := .skip
